@@ -239,6 +239,10 @@ func (h *FBDNSDB) ServeDNSWithRCODE(ctx context.Context, w dns.ResponseWriter, r
 				rcode := resp.Rcode
 				resp.SetReply(r)
 				resp.Rcode = rcode
+				if len(r.Question) == 0 {
+					// SetReply keeps the cached question when the request has none
+					resp.Question = nil
+				}
 				if r.IsEdns0() != nil {
 					o = new(dns.OPT)
 					o.Hdr.Name = "."
